@@ -31,10 +31,11 @@ def lib():
 
 ATOMS = ["0", "1", "-1", ":", "1:", ":-1", "::2", "::-1", "1:3", "...", "None", "[0, 0]", "[1, 0]", "[-1, 0, 0]",
          "array([0, 1])", "array([[0], [1]])", "[True, False]", "[True, False, True]", "[False, False]",
-         "[0, -2]", "[0, -3]", "array([1, -2])", "array([1, -1])"]       # distinct numbers that alias the same position
+         "[0, -2]", "[0, -3]", "array([1, -2])", "array([1, -1])",       # distinct numbers that alias the same position
+         "(0, 0, 1)", "(1, -1)", "range(2)"]                              # index arrays spelled as a tuple / range inside the index tuple
 
 
-ATOMS_SMALL = ["0", "-1", ":", "1:", "::-1", "...", "None", "[0, 0]", "array([[0], [1]])", "[True, False]", "[0, -2]", "array([1, -2])"]
+ATOMS_SMALL = ["0", "-1", ":", "1:", "::-1", "...", "None", "[0, 0]", "array([[0], [1]])", "[True, False]", "[0, -2]", "array([1, -2])", "(0, 0, 1)"]
 
 
 def index_factory(quick, seed):
